@@ -293,7 +293,14 @@ func rulesC07(c *Ctx) {
 				case "(*StreamableHTTPHandler).serveStatefulPOST":
 					want = "false"
 				}
-				c.Check(want != "" && exprStr(kv.Value) == want, "Stateless-literal:"+f.Root().Name(), f, kv, "the transport built here has Stateless: %s as a constant (found %s)", want, exprStr(kv.Value))
+				okVal := want != "" && exprStr(kv.Value) == want
+				if !okVal && want != "" {
+					// the handler's own option, on a path that is entered only with the option having that value
+					if optF := c.P.LookupField(pM, "StreamableHTTPOptions", "Stateless"); optF != nil && f.IsField(kv.Value, optF) {
+						okVal = c.entryGuardedBy(f.Root(), optF, want == "true", 0)
+					}
+				}
+				c.Check(okVal, "Stateless-literal:"+f.Root().Name(), f, kv, "the transport built here has Stateless: %s as a constant (found %s)", want, exprStr(kv.Value))
 			})
 			for _, w := range f.FieldWrites(f.Body, statelessF, false) {
 				c.Fail("Stateless-assigned:"+f.Name(), f, w, "the Stateless flag of a transport is assigned after construction")
